@@ -3,7 +3,7 @@
 use dasp_sample::{Sample, I24, I48, U24, U48};
 use std::fmt::Debug;
 
-/// position-coded sample: distinct for distinct i < 200; plus boundary values
+/// position-coded sample: distinct for distinct i < 200 (24-bit formats repeat after 8000 / 16000 positions); plus boundary values
 pub trait Mk: Sample + PartialEq + Debug + 'static {
     const NAME: &'static str;
     fn mk(i: usize) -> Self;
@@ -39,12 +39,12 @@ mk!(i8, "i8", |i| (i as i32 - 100) as i8, 3, 0, [0, i8::MIN, i8::MAX, -127, 126,
 mk!(u8, "u8", |i| i as u8, 3, 0, [128, 0, 255, 1, 254, 129, 127, 192], |g| g as f32);
 mk!(i16, "i16", |i| (i as i32 * 7 - 300) as i16, 3, 0, [0, i16::MIN, i16::MAX, -32767, 32766, 1, -1, 16384], |g| g as f32);
 mk!(u16, "u16", |i| (i * 11) as u16, 3, 0, [32768, 0, 65535, 1, 65534, 32769, 32767, 49152], |g| g as f32);
-mk!(I24, "I24", |i| I24::new(i as i32 * 1001 - 5000).unwrap(), I24::new(3).unwrap(), I24::new(0).unwrap(),
+mk!(I24, "I24", |i| I24::new((i % 8000) as i32 * 1001 - 5000).unwrap(), I24::new(3).unwrap(), I24::new(0).unwrap(),
     [I24::new(0).unwrap(), dasp_sample::types::i24::MIN, dasp_sample::types::i24::MAX, I24::new(-8_388_607).unwrap(), I24::new(8_388_606).unwrap(), I24::new(1).unwrap(), I24::new(-1).unwrap(), I24::new(4_194_304).unwrap()], |g| g as f32);
-mk!(U24, "U24", |i| U24::new(i as i32 * 1003).unwrap(), 3 << 8, 0,
+mk!(U24, "U24", |i| U24::new((i % 16000) as i32 * 1003).unwrap(), 3 << 8, 0,
     [dasp_sample::types::u24::EQUILIBRIUM, dasp_sample::types::u24::MIN, dasp_sample::types::u24::MAX, U24::new(1).unwrap(), U24::new(16_777_214).unwrap(), U24::new(8_388_609).unwrap(), U24::new(8_388_607).unwrap(), U24::new(12_582_912).unwrap()], |g| g as f32);
-mk!(i32, "i32", |i| i as i32 * 100_003 - 77, 3, 0, [0, i32::MIN, i32::MAX, i32::MIN + 1, i32::MAX - 1, 1, -1, 1 << 30], |g| g as f32);
-mk!(u32, "u32", |i| i as u32 * 100_019, 3, 0, [1 << 31, 0, u32::MAX, 1, u32::MAX - 1, (1 << 31) + 1, (1 << 31) - 1, 3 << 30], |g| g as f32);
+mk!(i32, "i32", |i| (i as i32).wrapping_mul(100_003).wrapping_sub(77), 3, 0, [0, i32::MIN, i32::MAX, i32::MIN + 1, i32::MAX - 1, 1, -1, 1 << 30], |g| g as f32);
+mk!(u32, "u32", |i| (i as u32).wrapping_mul(100_019), 3, 0, [1 << 31, 0, u32::MAX, 1, u32::MAX - 1, (1 << 31) + 1, (1 << 31) - 1, 3 << 30], |g| g as f32);
 mk!(I48, "I48", |i| I48::new(i as i64 * 1_000_000_007 - 9).unwrap(), I48::new(3).unwrap(), I48::new(0).unwrap(),
     [I48::new(0).unwrap(), dasp_sample::types::i48::MIN, dasp_sample::types::i48::MAX, I48::new(-140_737_488_355_327).unwrap(), I48::new(140_737_488_355_326).unwrap(), I48::new(1).unwrap(), I48::new(-1).unwrap(), I48::new(1 << 46).unwrap()], |g| g);
 mk!(U48, "U48", |i| U48::new(i as i64 * 1_000_000_009).unwrap(), 3 << 16, 0,
